@@ -657,8 +657,8 @@ ddiff_prnt(struct dt_dtdur_s dur, const char *fmt, durfmt_t f, bool only_d_p)
 	char buf[256];
 	size_t res = __strfdtdur(buf, sizeof(buf), fmt, dur, f, only_d_p);
 
-	if (res > 0 && buf[res - 1] != '\n') {
-		/* auto-newline */
+	if (res > 0 && res < sizeof(buf) && buf[res - 1] != '\n') {
+		/* auto-newline, if there's room for it */
 		buf[res++] = '\n';
 	}
 	if (res > 0) {
